@@ -2708,6 +2708,7 @@ func (lex *Lexer) Lex() *token.Token {
 
 				s := strings.Replace(string(lex.data[lex.ts:lex.te]), "_", "", -1)
 				_, err := strconv.ParseInt(s, base, 0)
+				lex.invalidOctal(base, err)
 
 				if err == nil {
 					lex.setTokenPosition(tkn)
@@ -3641,6 +3642,7 @@ func (lex *Lexer) Lex() *token.Token {
 
 			s := strings.Replace(string(lex.data[lex.ts:lex.te]), "_", "", -1)
 			_, err := strconv.ParseInt(s, base, 0)
+			lex.invalidOctal(base, err)
 
 			if err == nil {
 				lex.setTokenPosition(tkn)
@@ -4110,6 +4112,7 @@ func (lex *Lexer) Lex() *token.Token {
 
 			s := strings.Replace(string(lex.data[lex.ts:lex.te]), "_", "", -1)
 			_, err := strconv.ParseInt(s, base, 0)
+			lex.invalidOctal(base, err)
 
 			if err == nil {
 				lex.setTokenPosition(tkn)
